@@ -16,6 +16,7 @@ a/c09.probe.x = 'A'
 a/b/c09.probe.x = 'AB'
 x/c09.probe.x = 'X'
 p/c09.probe.x = 'P'
+job/c09.probe.x = 'JOB'
 """
 
 
@@ -77,27 +78,61 @@ def t_small_x():
   return [s1, s2, gin.current_scope()]
 
 
+_SHARED = {}
+
+
+def shared():
+  # ONE scoped version of the configurable, used by every thread (this is what a reference stored in the config is)
+  if 'fn' not in _SHARED:
+    _SHARED['fn'] = gin.get_configurable('job/c09.probe')
+  return _SHARED['fn']
+
+
+def t_shared_shallow():
+  r = shared()()
+  return [r, gin.current_scope()]
+
+
+def t_shared_deep():
+  with gin.config_scope('outer'):
+    with gin.config_scope('inner'):
+      r = shared()()
+      s = gin.current_scope()
+    s2 = gin.current_scope()
+  return [r, s, s2, gin.current_scope()]
+
+
 HARNESSES = {
     'S1_nested+list': lambda: [t_nested, t_list_none],
     'S2_three_threads': lambda: [t_nested, t_list_none, t_errors],
     'S3_small_enter_exit': lambda: [t_small_a, t_small_x],
     'S4_errors+nested': lambda: [t_errors, t_nested],
+    'S5_one_scoped_reference_two_depths': lambda: [t_shared_shallow, t_shared_deep],
 }
 
 
 def plan(tier):
   if tier == 'quick':
-    return [('S1_nested+list', 1, 'shared'), ('S2_three_threads', 1, 'shared'), ('S3_small_enter_exit', 2, 'all')]
+    return [('S1_nested+list', 1, 'shared'), ('S2_three_threads', 1, 'shared'), ('S3_small_enter_exit', 2, 'all'),
+            ('S5_one_scoped_reference_two_depths', 2, 'shared')]
   return [('S1_nested+list', 2, 'shared'), ('S2_three_threads', 1, 'all'), ('S3_small_enter_exit', 3, 'all'),
-          ('S4_errors+nested', 2, 'shared'), ('S1_nested+list', 1, 'all')]
+          ('S4_errors+nested', 2, 'shared'), ('S1_nested+list', 1, 'all'), ('S5_one_scoped_reference_two_depths', 3, 'shared')]
 
 
 def make_world(hname):
   def make():
     harness.hard_reset()
+    _SHARED.clear()
     gin.parse_config(CONFIG)
-    # History: a thread that used scopes has already come and gone (thread identifiers are recycled by the OS: the
-    # next thread started typically receives the identifier of the one that just died).
+    # The launching thread uses scopes itself and starts its workers inside copies of its own context (this is what
+    # asyncio.to_thread and executors that propagate context do): the copies are taken while a scope is active.
+    import contextvars  # pylint: disable=import-outside-toplevel
+    bodies = HARNESSES[hname]()
+    with gin.config_scope('launcher'):
+      ctxs = [contextvars.copy_context() for _ in bodies]
+    # History, LAST (so that the thread that has just died is the most recent user of scopes): a thread that used scopes
+    # has come and gone; thread identifiers are recycled by the OS, the next thread started typically receives the
+    # identifier of the one that just died.
     def gone():
       with gin.config_scope('gone'):
         with gin.config_scope('deeper'):
@@ -105,12 +140,6 @@ def make_world(hname):
     t = threading.Thread(target=gone)
     t.start()
     t.join()
-    # The launching thread uses scopes itself and starts its workers inside copies of its own context (this is what
-    # asyncio.to_thread and executors that propagate context do): the copies are taken while a scope is active.
-    import contextvars  # pylint: disable=import-outside-toplevel
-    bodies = HARNESSES[hname]()
-    with gin.config_scope('launcher'):
-      ctxs = [contextvars.copy_context() for _ in bodies]
     return [(lambda b=b, c=c: c.run(b)) for b, c in zip(bodies, ctxs)]
   return make
 
